@@ -27,6 +27,55 @@ SPECIALS_ORACLE = {'~': ' ', '``': '“', "''": '”', '--': '–', '---': '—
                    '!`': '¡', '?`': '¿'}
 
 
+def _shared_preset_writes(ctx, m):
+    MUT = {'update', 'pop', 'setdefault', 'clear', 'popitem', '__setitem__', '__delitem__'}
+    tables_ = {st.targets[0].id for st in m.tree.body if isinstance(st, ast.Assign) and len(st.targets) == 1
+               and isinstance(st.targets[0], ast.Name) and isinstance(st.value, ast.Dict)}
+    # functions that can return (an entry of) a module-level table without copying it
+    sharing = {}
+    for q, f in m.functions.items():
+        if '.' in q:
+            continue
+        for r in iter_own(f):
+            if isinstance(r, ast.Return) and r.value is not None:
+                v = r.value
+                root = v
+                while isinstance(root, ast.Subscript):
+                    root = root.value
+                if isinstance(root, ast.Name) and root.id in tables_ and not isinstance(v, ast.Call):
+                    sharing[q] = (r, root.id)
+    # attributes that receive such a result
+    shared_attrs = {}
+    for n in ast.walk(m.tree):
+        if isinstance(n, ast.Assign) and isinstance(n.value, ast.Call) and isinstance(n.value.func, ast.Name) \
+                and n.value.func.id in sharing:
+            for t in n.targets:
+                if isinstance(t, ast.Attribute):
+                    shared_attrs[t.attr] = (n, n.value.func.id)
+    n_w = 0
+    for n in ast.walk(m.tree):
+        tgt = None
+        if isinstance(n, ast.Subscript) and isinstance(n.ctx, (ast.Store, ast.Del)) and \
+                isinstance(n.value, ast.Attribute) and n.value.attr in shared_attrs:
+            tgt = n.value
+        elif isinstance(n, ast.Call) and call_name(n) in MUT and isinstance(call_recv(n), ast.Attribute) \
+                and call_recv(n).attr in shared_attrs:
+            tgt = call_recv(n)
+        if tgt is None:
+            continue
+        n_w += 1
+        src, fnname = shared_attrs[tgt.attr]
+        ctx.refuted('R03k', m, enclosing_stmt(n) or n,
+                    '%s is written in place, but it may be one of the module-level presets (%s() returns %s '
+                    'entries without copying them and its result is stored in .%s): the preset itself is '
+                    'changed, so every converter created later with that preset -- the default included -- '
+                    'follows the modified rule' % (unparse(tgt), fnname, sharing[fnname][1], tgt.attr),
+                    construct='in-place write: ' + short(enclosing_stmt(n) or n, 70))
+    ctx.holds('R03k', m, None, '%d function(s) return preset tables uncopied into %d attribute(s); no in-place '
+              'write to those attributes' % (len(sharing), len(shared_attrs)),
+              construct='shared preset scan', trivial=True)
+
+
 def _concat_parts(e):
     """flatten a + b + c into parts, merging adjacent string constants"""
     parts = []
@@ -117,6 +166,9 @@ def run(ctx):
                      'between-macro-and-chars rule is off', 3)
     ctx.rule('R03i', 'whitespace-only chars nodes are dropped exactly when the '
                      'between-latex-constructs rule is off; comment post-space follows after-comment', 3)
+    ctx.rule('R03k', 'the whitespace-policy presets are process-wide tables: a value that may be one of them '
+                     '(returned uncopied by the policy parser and stored on the converter) is never written '
+                     'in place -- one converter\'s options must not change the rules of the next', 1)
     ctx.rule('R03j', 'specials table: tie, quotes and dashes map to their Unicode characters', 7)
 
     # ------------------------------------------------------------ R03a
@@ -434,6 +486,8 @@ def run(ctx):
                    '%r -> U+%04X' % (sc, ord(want_)),
                    'specials %r renders as %r (documented: U+%04X)' % (sc, e['repl'] if e else None, ord(want_)),
                    construct='specials ' + sc)
+    # ------------------------------------------------------------ R03k
+    _shared_preset_writes(ctx, m)
     ctx.assume('no rendered string is computed: whitespace ownership between constructs and the '
                'compositional equality stated by the property are run-time statements, not decided')
     return 'other', (
